@@ -23,6 +23,7 @@ import (
 	"rcproxy/core"
 	"rcproxy/core/authip"
 	"rcproxy/core/codec"
+	"rcproxy/core/pkg/constant"
 	"rcproxy/core/pkg/logging"
 )
 
@@ -211,6 +212,14 @@ func (ls *listenServer) OnMoved(addr string, slot int32, s core.SConn, f *core.F
 		f.MsgId(), f.Id, f.OwnerFd(), s.Fd(),
 		s.RemoteAddr(), addr, slot, f.ReqString())
 
+	// redirect handling always terminates, even when the cluster's view is inconsistent
+	f.Redirects++
+	if f.Redirects > constant.MaxRedirects {
+		logging.Errorf("[%dm|%df][%dc|%ds] too many redirects", f.MsgId(), f.Id, f.OwnerFd(), s.Fd())
+		f.Fail(codec.ErrTooManyRedirects)
+		return
+	}
+
 	pool, ok := core.EngineGlobal.ProxyPool[addr]
 	if !ok {
 		logging.Errorf("[%dm|%df][%dc|%ds] moved/ask happen, proxy pool get addr %s failed",
@@ -231,6 +240,10 @@ func (ls *listenServer) OnMoved(addr string, slot int32, s core.SConn, f *core.F
 	delete(f.Peer.Fd2Slot, s.Fd())
 	f.Peer.Fd2Slot[sConn.Fd()] = slot
 
+	// the cluster protocol requires ASKING right before a request that follows an ASK redirect
+	if f.Type == codec.RspAsk {
+		sConn.EnqueueOutFrag(core.NewAskingFrag())
+	}
 	sConn.EnqueueOutFrag(f)
 }
 
